@@ -50,6 +50,9 @@ def fiber_cases(ctx):
             for op in ("add_fs", "radd_fs", "mul_fs", "rmul_fs", "iadd_fs", "imul_fs"):
                 out.append({"kind": "fiber", "op": op, "a": a, "b": e, "s": s, "shape": 4})
                 out.append({"kind": "fiber", "op": op, "a": a, "b": e, "s": s, "shape": 4, "d": 2})       # non-zero leaf default
+                if s != 0 or op.startswith("i"):
+                    # an active range narrower than the declared shape: scalar addition still ranges over the whole shape
+                    out.append({"kind": "fiber", "op": op, "a": a, "b": e, "s": s, "shape": 5, "act": [0, 3]})
     for a, b in ctx.rng.sample(pairs, min(len(pairs), 300 if ctx.quick else 4096)):
         for op in ("add_ff", "mul_ff", "iadd_ff", "imul_ff"):
             out.append({"kind": "fiber", "op": op, "a": a, "b": b, "d": 2})
@@ -59,7 +62,7 @@ def fiber_cases(ctx):
 def where(c):
     if c["kind"] == "scalar":
         return f"{c['lk']}-{c['rk']}"
-    return "fiber" + (":nonzero-default" if c.get("d") else "")
+    return "fiber" + (":nonzero-default" if c.get("d") else "") + (":active" if c.get("act") else "")
 
 
 def run(ctx):
